@@ -4,9 +4,9 @@ from .. import gen as G
 from .common import TRUSTED, ASSUMPTIONS, default_nontrivial, LEVEL_NOTE, TECHNIQUE
 
 LEVEL = "proof"
-THEOREMS = ['C14_closed_form', 'C14_wf', 'C14_base_rate', 'C14_sum', 'C14_projection', 'C14_case1', 'C14_dogmatic', 'C14_nonneg', 'C14_swap_x', 'C14_swap_y']
+THEOREMS = ['C14_closed_form', 'C14_wf', 'C14_base_rate', 'C14_sum', 'C14_projection', 'C14_case1', 'C14_dogmatic', 'C14_nonneg', 'C14_swap_x', 'C14_swap_y', 'C14_tie']
 RULE = ("bdeduce / bdeduce_sym on the open domain 0<P(x)<1, 0<ax<1, 0<ay<1: 1/8 grid sample (exhaustive over antecedents x a "
-        "sample of conditionals), random dyadic grids up to 1/64, dogmatic antecedents, arbitrary floats; f32+f64; all nine "
+        "sample of conditionals), random dyadic grids up to 1/64, dogmatic antecedents, conditionals whose beliefs/disbeliefs differ by 2^-10..2^-45, consequent base rates 2^-k and 1-2^-k (k up to 50), arbitrary floats; f32+f64; all nine "
         "case branches counted from the model's branch tag. non-trivial = implementation returned a value")
 EXHAUSTIVE = {}
 nontrivial = default_nontrivial
@@ -35,6 +35,48 @@ def cases(rng, tier):
             sc = _case(rng, den)
             r = rng.random()
             if r < 0.7:
+                out.append(G.line("bdeduce", fmt, "B.o", [], sc))
+            else:
+                out.append(G.line("bdeduce_sym", fmt, "B.o", [rng.randint(0, 1)], sc))
+        # near-ties between the two conditionals (their beliefs or disbeliefs differ by a dyadic amount far below any grid step:
+        # the case selection compares them exactly) and consequent base rates next to the end points of (0,1); dyadic, so exact
+        kmax = 45 if fmt == "f64" else 20
+        for _ in range(N // 3):
+            den = rng.choice([8, 16, 64])
+            sc = _case(rng, den)
+            x, c0, c1, ay = sc[:4], [Fr(v) for v in sc[4:7]], [Fr(v) for v in sc[7:10]], sc[10]
+            z = rng.random()
+            if z < 0.65:
+                dl = Fr(1, 2 ** rng.randint(10, kmax)) * rng.choice([1, 1, 3])
+                which = rng.choice(["b", "d", "bd"])
+                c0 = list(c1)
+                moved = False
+                for comp, i in (("b", 0), ("d", 1)):
+                    if comp in which:
+                        sgn = rng.choice([1, -1])
+                        # move c0[i] by sgn*dl, taking it from / giving it to the uncertainty (or the other mass)
+                        j = 2 if c0[2] >= dl and c0[2] + dl <= 1 else 1 - i
+                        if c0[i] + sgn * dl >= 0 and c0[j] - sgn * dl >= 0:
+                            c0[i] += sgn * dl; c0[j] -= sgn * dl; moved = True
+                if not moved:
+                    continue
+                if rng.random() < 0.6:
+                    # ... and a CLEAR difference of the opposite sign in the other mass (Case II / III proper, not a tie):
+                    # move a grid amount between the other mass and the uncertainty of c0
+                    i = 1 if which == "b" else 0 if which == "d" else rng.randint(0, 1)
+                    g = Fr(rng.randint(1, den // 2), den)
+                    sg = 1 if c0[1 - i] < c1[1 - i] else -1
+                    if c0[i] + sg * g >= 0 and c0[2] - sg * g >= 0 and c0[i] + sg * g <= 1 and c0[2] - sg * g <= 1:
+                        c0[i] += sg * g; c0[2] -= sg * g
+                if rng.random() < 0.5:
+                    c0, c1 = c1, c0
+                if rng.random() < 0.6:
+                    ay = Fr(1, 2 ** rng.randint(3, 12)) if rng.random() < 0.5 else 1 - Fr(1, 2 ** rng.randint(3, 12))
+            else:
+                k = rng.randint(10, 50 if fmt == "f64" else 23)
+                ay = Fr(1, 2 ** k) if rng.random() < 0.5 else 1 - Fr(1, 2 ** k)
+            sc = x + c0 + c1 + [ay]
+            if rng.random() < 0.5:
                 out.append(G.line("bdeduce", fmt, "B.o", [], sc))
             else:
                 out.append(G.line("bdeduce_sym", fmt, "B.o", [rng.randint(0, 1)], sc))
